@@ -1,0 +1,315 @@
+//! Verification hooks (compiled only with `--cfg mscript_verif`).
+//!
+//! Everything here is observation only: append-only event sinks that are opened from
+//! environment variables. With the environment unset every hook is one `Option` test.
+//!
+//! * `MSCRIPT_VERIF_TRACE=<file>`: per-activation / per-instruction / module / FFI events.
+//! * `MSCRIPT_VERIF_DUMP=<file>`: instruction streams of every function that is created.
+//! * `MSCRIPT_VERIF_TYPED_PRINT=1`: `print` prefixes values with their run-time kind.
+
+use std::cell::{Cell, RefCell};
+use std::fmt::Write as _;
+use std::fs::{File, OpenOptions};
+use std::io::Write;
+use std::rc::Rc;
+
+use crate::stack::Stack;
+use crate::Primitive;
+
+struct Sink {
+    file: File,
+    buf: String,
+}
+
+impl Sink {
+    fn open(var: &str) -> Option<Sink> {
+        let path = std::env::var_os(var)?;
+        let file = OpenOptions::new()
+            .create(true)
+            .append(true)
+            .open(path)
+            .ok()?;
+        Some(Sink {
+            file,
+            buf: String::new(),
+        })
+    }
+
+    fn flush(&mut self) {
+        if !self.buf.is_empty() {
+            let _ = self.file.write_all(self.buf.as_bytes());
+            self.buf.clear();
+        }
+    }
+
+    fn line(&mut self, urgent: bool) {
+        self.buf.push('\n');
+        if urgent || self.buf.len() > (1 << 15) {
+            self.flush();
+        }
+    }
+}
+
+impl Drop for Sink {
+    fn drop(&mut self) {
+        self.flush();
+    }
+}
+
+thread_local! {
+    static TRACE: RefCell<Option<Option<Sink>>> = const { RefCell::new(None) };
+    static DUMP: RefCell<Option<Option<Sink>>> = const { RefCell::new(None) };
+    static NEXT_ACTIVATION: Cell<u64> = const { Cell::new(0) };
+    static TYPED_PRINT: Cell<u8> = const { Cell::new(2) };
+}
+
+fn with_sink(
+    key: &'static std::thread::LocalKey<RefCell<Option<Option<Sink>>>>,
+    var: &str,
+    f: impl FnOnce(&mut Sink),
+) {
+    let _ = key.try_with(|cell| {
+        let Ok(mut slot) = cell.try_borrow_mut() else {
+            return;
+        };
+        if slot.is_none() {
+            *slot = Some(Sink::open(var));
+        }
+        if let Some(Some(sink)) = slot.as_mut() {
+            f(sink)
+        }
+    });
+}
+
+fn with_trace(f: impl FnOnce(&mut Sink)) {
+    with_sink(&TRACE, "MSCRIPT_VERIF_TRACE", f)
+}
+
+fn with_dump(f: impl FnOnce(&mut Sink)) {
+    with_sink(&DUMP, "MSCRIPT_VERIF_DUMP", f)
+}
+
+/// JSON-style escaping so that one record is always one line.
+fn esc(out: &mut String, s: &str) {
+    out.push('"');
+    for c in s.chars() {
+        match c {
+            '"' => out.push_str("\\\""),
+            '\\' => out.push_str("\\\\"),
+            '\n' => out.push_str("\\n"),
+            '\r' => out.push_str("\\r"),
+            '\t' => out.push_str("\\t"),
+            c if (c as u32) < 0x20 => {
+                let _ = write!(out, "\\u{:04x}", c as u32);
+            }
+            c => out.push(c),
+        }
+    }
+    out.push('"');
+}
+
+fn depth_of(stack: &Rc<RefCell<Stack>>) -> i64 {
+    match stack.try_borrow() {
+        Ok(s) => s.size() as i64,
+        Err(_) => -1,
+    }
+}
+
+/// One per `Function::run`; logs the exit from its destructor so that error
+/// and panic exits are observed too.
+pub(crate) struct Activation {
+    id: u64,
+    stack: Rc<RefCell<Stack>>,
+    how: Cell<&'static str>,
+}
+
+impl Activation {
+    /// `E <id> <depth after the frame push> <qualified function name>`
+    pub(crate) fn enter(name: &str, stack: &Rc<RefCell<Stack>>) -> Self {
+        let id = NEXT_ACTIVATION.with(|n| {
+            let id = n.get();
+            n.set(id + 1);
+            id
+        });
+        let depth = depth_of(stack);
+        with_trace(|s| {
+            let _ = write!(s.buf, "E {id} {depth} ");
+            esc(&mut s.buf, name);
+            s.line(false);
+        });
+        Self {
+            id,
+            stack: Rc::clone(stack),
+            how: Cell::new("err"),
+        }
+    }
+
+    /// `I <id> <ip> <opcode> <depth> <operand stack length>` before an instruction runs.
+    #[inline]
+    pub(crate) fn instruction(&self, ip: usize, opcode: u8, oplen: usize) {
+        let id = self.id;
+        let depth = depth_of(&self.stack);
+        with_trace(|s| {
+            let _ = write!(s.buf, "I {id} {ip} {opcode} {depth} {oplen}");
+            s.line(false);
+        });
+    }
+
+    pub(crate) fn exit_how(&self, how: &'static str) {
+        self.how.set(how)
+    }
+}
+
+impl Drop for Activation {
+    /// `X <id> <ret|fall|err|panic> <depth now>`
+    fn drop(&mut self) {
+        let id = self.id;
+        let how = if std::thread::panicking() {
+            "panic"
+        } else {
+            self.how.get()
+        };
+        let depth = depth_of(&self.stack);
+        let urgent = how != "ret" || id == 0;
+        with_trace(|s| {
+            let _ = write!(s.buf, "X {id} {how} {depth}");
+            s.line(urgent);
+        });
+    }
+}
+
+/// `M hit|miss <path>` for every executed module import.
+pub(crate) fn module_import(path: &str, hit: bool) {
+    with_trace(|s| {
+        let _ = write!(s.buf, "M {} ", if hit { "hit" } else { "miss" });
+        esc(&mut s.buf, path);
+        s.line(false);
+    });
+}
+
+/// `L <lib> <func> <n> <Debug of each argument>...` before a foreign call.
+pub(crate) fn ffi_call(lib: &str, func: &str, args: &[Primitive]) {
+    with_trace(|s| {
+        s.buf.push_str("L ");
+        esc(&mut s.buf, lib);
+        s.buf.push(' ');
+        esc(&mut s.buf, func);
+        let _ = write!(s.buf, " {}", args.len());
+        for arg in args {
+            s.buf.push(' ');
+            esc(&mut s.buf, &format!("{arg:?}"));
+        }
+        // flushed at once: the foreign code may never come back.
+        s.line(true);
+    });
+}
+
+/// `R <Debug of the result>` after a foreign call returned.
+pub(crate) fn ffi_return(result: &dyn std::fmt::Debug) {
+    with_trace(|s| {
+        s.buf.push_str("R ");
+        esc(&mut s.buf, &format!("{result:?}"));
+        s.line(true);
+    });
+}
+
+/// `F <file> <function> <n>` followed by n records `i <opcode> <args>...`
+pub(crate) fn dump_function(path: &str, name: &str, code: &[crate::instruction::Instruction]) {
+    with_dump(|s| {
+        s.buf.push_str("F ");
+        esc(&mut s.buf, path);
+        s.buf.push(' ');
+        esc(&mut s.buf, name);
+        let _ = write!(s.buf, " {}", code.len());
+        s.line(false);
+        for instruction in code {
+            let _ = write!(s.buf, "i {}", instruction.id);
+            for arg in instruction.arguments.iter() {
+                s.buf.push(' ');
+                esc(&mut s.buf, arg);
+            }
+            s.line(false);
+        }
+        s.flush();
+    });
+}
+
+pub(crate) fn typed_print() -> bool {
+    TYPED_PRINT.with(|c| {
+        if c.get() == 2 {
+            c.set(std::env::var_os("MSCRIPT_VERIF_TYPED_PRINT").is_some() as u8);
+        }
+        c.get() == 1
+    })
+}
+
+/// The run-time kind tree of a value; heap pointers and present optionals are resolved.
+pub(crate) fn kind_of(p: &Primitive) -> String {
+    fn go(p: &Primitive, out: &mut String, fuel: &mut usize) {
+        if *fuel == 0 {
+            out.push('…');
+            return;
+        }
+        *fuel -= 1;
+        match p {
+            Primitive::Bool(_) => out.push_str("Bool"),
+            Primitive::Str(_) => out.push_str("Str"),
+            Primitive::Int(_) => out.push_str("Int"),
+            Primitive::BigInt(_) => out.push_str("BigInt"),
+            Primitive::Float(_) => out.push_str("Float"),
+            Primitive::Byte(_) => out.push_str("Byte"),
+            Primitive::Function(_) => out.push_str("Function"),
+            Primitive::BuiltInFunction(_) => out.push_str("BuiltIn"),
+            Primitive::Vector(v) => {
+                out.push_str("Vector[");
+                if let Ok(view) = v.0.try_borrow() {
+                    for (i, e) in view.iter().enumerate() {
+                        if i > 0 {
+                            out.push(',');
+                        }
+                        go(e, out, fuel);
+                    }
+                } else {
+                    out.push('?');
+                }
+                out.push(']');
+            }
+            Primitive::HeapPrimitive(h) => match h.to_owned_primitive() {
+                Ok(inner) => go(&inner, out, fuel),
+                Err(_) => out.push_str("DanglingPtr"),
+            },
+            Primitive::Object(o) => {
+                let _ = write!(out, "Object({})", o.name.as_deref().unwrap_or("?"));
+            }
+            Primitive::Module(_) => out.push_str("Module"),
+            Primitive::Optional(None) => out.push_str("Nil"),
+            Primitive::Optional(Some(inner)) => go(inner, out, fuel),
+            Primitive::Map(m) => {
+                out.push_str("Map{");
+                if let Ok(view) = m.0.try_borrow() {
+                    // kinds only, sorted, so that the text does not depend on hash order
+                    let mut kinds: Vec<String> = view
+                        .iter()
+                        .map(|(k, v)| {
+                            let mut t = String::new();
+                            go(k, &mut t, fuel);
+                            t.push(':');
+                            go(v, &mut t, fuel);
+                            t
+                        })
+                        .collect();
+                    kinds.sort();
+                    kinds.dedup();
+                    out.push_str(&kinds.join(","));
+                } else {
+                    out.push('?');
+                }
+                out.push('}');
+            }
+        }
+    }
+    let mut out = String::new();
+    let mut fuel = 2000usize;
+    go(p, &mut out, &mut fuel);
+    out
+}
